@@ -104,3 +104,20 @@ TEXT = {
         "level_note": "Trusted: the naive predicate in harness/gen/nip01.go. Events have >=1 element per tag (the admission gate's guarantee); filter tag values never \"\".",
     },
 }
+
+# additions of the ninth seed round (appended to the notes above)
+_ROUND9 = {
+    'C20': ' Concurrent stage: 2-4 muxes with documents of different lengths asked from 4-24 goroutines; every answer is the whole document of the mux that was asked.',
+    'C01': ' Concurrent-twins stage at the relay gate: 3-8 connections send genuine copies of a fresh event and same-id copies with altered signature / content / created_at at the same moment; exactly the genuine ones reach the handler. Tags without elements are generated.',
+    'C12': ' Steady-reader stage: a client that reads 2-5 ms per frame without pausing receives three send timeouts worth of output whole and in order. Handlers also emit message objects they emitted before (same pointer), which must read as they did the first time.',
+    'C13': ' Round 9 additions: SQLite handler with its only pooled connection in use and 2-4 sessions with the same or different REQs in progress, cancelled in a generated order; a raw WebSocket peer that stops reading after a ping and answers that ping while the relay write is blocked (dropped within send timeout + 3 s).',
+    'C15': ' Simultaneous-writers stage: 2-5 writers insert at the same moment (gate + scheduler yields), then a query with since at one of the new timestamps must show every insertion that had returned.',
+    'C14': ' The first open of the database file may be cut at its k-th schema statement (fault driver) before the history starts.',
+    'C07': ' A third of the replacing REQs are near twins of what they replace (absent vs empty list, one tag value fewer, limit added or dropped, identical list).',
+    'C17': ' Every reply the client received is re-read at the end of the session and must still have the wording it had on receipt (no reply object re-used for a later rejection).',
+    'C18': ' Every reply the client received is re-read at the end of the session and must still have the wording it had on receipt.',
+    'C02': ' Listed ids / authors get near twins sharing a 1-63 character prefix or suffix; since / until also take far values (0, 2^31 +- 1, 2^32, 2^53+1, 2^62, 2^63-1).',
+    'C06': ' Stored events carry tag values over all Unicode scalar values; filters use far since / until values and near-twin ids / authors.',
+}
+for _k, _v in _ROUND9.items():
+    TEXT[_k]['level_note'] += _v
